@@ -2,11 +2,13 @@
    What the Coq development carries: the ANSWER is determined by the program and the facts alone —
    any evaluation order that respects dependencies (the scheduling freedom used by subplan sharing and
    by the topological tie-breaking) yields the query relation of the perfect model, so two such orders
-   agree.  The individual rewrite passes (SIP semijoin reduction, magic sets, join planning, subplan
-   sharing, boolean specialization) are NOT modelled at this level: `_partial`.  They are validated on
+   agree; and join order inside a rule is irrelevant (C02_join_order_irrelevant).  The rewrite passes
+   as implemented (SIP semijoin reduction, magic sets, the join planner's IR surgery, subplan sharing,
+   boolean specialization) are NOT modelled at this level: `_partial`.  They are validated on
    every run by executing every generated program under the switch combinations and comparing answers
    (oracle), and the IR-level passes are the subject of C05. *)
-From IL Require Import Model.Value Model.Datalog Proofs.DatalogMono Proofs.DatalogEngine.
+From IL Require Import Model.Value Model.Datalog Proofs.DatalogMono Proofs.DatalogEngine Proofs.DatalogReorder.
+From Coq Require Import Permutation.
 Open Scope N_scope.
 
 Theorem C02_any_dependency_order_partial :
@@ -25,6 +27,30 @@ Proof.
   rewrite Hl in *. split; eapply incl_tran; eauto.
 Qed.
 
+(* Join order never changes a rule's answers: two rules with the same head, the same non-join literals
+   (comparisons, assignments, negations, in the same order) and the same positive atoms in ANY order
+   have the same consequences on every database. This is the Datalog-level content of join planning
+   (and of any pass that only reorders joins); proved via commutation of atom matching on valuations
+   seen as finite maps.  All clauses, all databases; aggregates excluded. *)
+Theorem C02_join_order_irrelevant :
+  forall (d : db) (c c' : clause),
+    chead c = chead c' -> cargs c = cargs c' -> has_agg c = false ->
+    nonpos (cbody c) = nonpos (cbody c') ->
+    Permutation (pos_atoms (cbody c)) (pos_atoms (cbody c')) ->
+    incl (eval_clause d c) (eval_clause d c') /\ incl (eval_clause d c') (eval_clause d c).
+Proof.
+  intros d c c' Hh Ha Hg Hn Hp. exact (join_order_irrelevant d c c' Hh Ha Hg (conj Hn Hp)).
+Qed.
+
+Example C02_join_order_nonvacuous :
+  let c  := {| chead := 99; cargs := [HVar 0; HVar 2];
+               cbody := [LPos 0 [TVar 0; TVar 1]; LPos 1 [TVar 1; TVar 2]; LCmp OGt (TVar 2) (TConst (VI64 5)); LPos 2 [TVar 0]] |} in
+  let c' := {| chead := 99; cargs := [HVar 0; HVar 2];
+               cbody := [LPos 2 [TVar 0]; LCmp OGt (TVar 2) (TConst (VI64 5)); LPos 1 [TVar 1; TVar 2]; LPos 0 [TVar 0; TVar 1]] |} in
+  let d := [ (0, [[VI64 1; VI64 1]; [VI64 2; VI64 1]]); (1, [[VI64 1; VI64 7]; [VI64 1; VI64 1]]); (2, [[VI64 1]]) ] in
+  nonpos (cbody c) = nonpos (cbody c') /\ eval_clause d c = [[VI64 1; VI64 7]] /\ eval_clause d c' = [[VI64 1; VI64 7]].
+Proof. vm_compute. split; [reflexivity|split; reflexivity]. Qed.
+
 (* two different valid orders for a diamond-shaped program *)
 Example C02_nonvacuous :
   let p := [ {| chead := 10; cargs := [HVar 0]; cbody := [LPos 2 [TVar 0]] |};
@@ -35,3 +61,4 @@ Example C02_nonvacuous :
 Proof. vm_compute. repeat split. Qed.
 
 Print Assumptions C02_any_dependency_order_partial.
+Print Assumptions C02_join_order_irrelevant.
